@@ -1,7 +1,12 @@
 package props
 
 import (
+	"bytes"
+	"encoding"
+	"encoding/gob"
 	"fmt"
+	"reflect"
+	"strings"
 	"testing"
 
 	ap "github.com/go-ap/activitypub"
@@ -14,7 +19,7 @@ func TestC03(t *testing.T) {
 	r := ev.Open(t, "C03")
 	defer r.Close(t)
 	r.Rule("same three layers as C01 (cells complete at depth 1, everything-set values, random compositions) through three entry pairs: package GobEncode/GobDecode, " +
-		"<T>.GobEncode/(*T).GobDecode, <T>.MarshalBinary/(*T).UnmarshalBinary; plus top-level IRI, IRIs, ItemCollection and Link values. Oracle: Diff under the gob normal form " +
+		"<T>.GobEncode/(*T).GobDecode, <T>.MarshalBinary/(*T).UnmarshalBinary; plus top-level IRI, IRIs, ItemCollection and Link values, plus the helper types (IRI, type, mime type, Content, LangRef, LangRefValue, language lists, Source, IRIs, Endpoints, PublicKey) through their own GobEncode/GobDecode and MarshalBinary/UnmarshalBinary pairs and through encoding/gob's Encoder. Oracle: Diff under the gob normal form " +
 		"(only unset==empty and pointer==value; instants equal to the nanosecond, tags and entry order compared) + same concrete Go type. " +
 		"non-trivial = at least one property besides id and type set on the root; distinct by canonical dump + entry pair")
 	r.Assume("ids within one value are pairwise non-equivalent; durations whole seconds (gob stores them exactly, the bound is only the generator's)")
@@ -45,5 +50,167 @@ func TestC03(t *testing.T) {
 		}
 		r.Cells(len(tops), len(tops))
 	}
-	_ = fmt.Sprint
+	// ---- helper types: every non-struct-vocabulary type with its own GobEncode/GobDecode (and MarshalBinary/UnmarshalBinary) pair,
+	// through the method pair(s) and through encoding/gob's Encoder/Decoder (how a value is stored) ----
+	if r.WantLayer("helpers", true) {
+		total, done := 0, 0
+		for _, h := range c03Helpers() {
+			for vi, v := range h.values {
+				for _, pair := range []string{"gob", "binary", "stdgob"} {
+					if pair == "binary" {
+						if _, ok := v.(encoding.BinaryMarshaler); !ok {
+							continue
+						}
+					}
+					total++
+					cell := fmt.Sprintf("%s #%d %s", h.name, vi, pair)
+					if !r.WantCell(cell) {
+						continue
+					}
+					done++
+					key, detail := c03HelperRoundTrip(h.name, v, pair)
+					r.Case(cell+" "+vocab.Dump(v), !reflect.ValueOf(v).IsZero(), "helpers "+h.name, "helpers pair="+pair)
+					if done%17 == 0 {
+						r.Sample(cell, map[string]interface{}{"layer": "helpers", "type": h.name, "pair": pair, "value": vocab.Dump(v)})
+					}
+					if key != "" {
+						r.Report("helpers", cell, key, detail, map[string]interface{}{"type": h.name, "pair": pair, "value": vocab.Dump(v)})
+					}
+				}
+			}
+		}
+		r.Cells(total, done)
+		r.Exhaustive("helpers", !r.Replaying())
+	}
+}
+
+type c03Helper struct {
+	name   string
+	values []interface{}
+}
+
+func c03Helpers() []c03Helper {
+	texts := []string{"", "plain", "two words", "üñí €", "quo\"te", "back\\slash", "line\nbreak", "nul\x00byte", "\xff\xfe not utf8", "<b>html</b>", " lead and trail ", "{\"a\":1}"}
+	var iris, types, mimes, contents, refs, lrvs, nlvs, sources, irisL, eps, pks []interface{}
+	for _, t := range texts {
+		contents = append(contents, ap.Content(t))
+		mimes = append(mimes, ap.MimeType(t))
+		types = append(types, ap.ActivityVocabularyType(t))
+		lrvs = append(lrvs, ap.LangRefValue{Ref: "en", Value: ap.Content(t)}, ap.LangRefValue{Ref: ap.NilLangRef, Value: ap.Content(t)})
+		sources = append(sources, ap.Source{MediaType: "text/markdown", Content: ap.NaturalLanguageValues{{Ref: ap.NilLangRef, Value: ap.Content(t)}}})
+		nlvs = append(nlvs, ap.NaturalLanguageValues{{Ref: "en", Value: ap.Content(t)}, {Ref: "fr", Value: ap.Content("autre " + t)}})
+	}
+	for _, t := range []string{"", "https://example.com/a", "https://example.com/a?x=1&y=2#f", "not a url", "https://example.com/ü/%20", "-", "https://[::1]:8080/x"} {
+		iris = append(iris, ap.IRI(t))
+	}
+	for _, t := range []string{"", "en", "en-GB", "-", "zh-Hant-TW", "x"} {
+		refs = append(refs, ap.LangRef(t))
+	}
+	types = append(types, ap.NoteType, ap.CreateType, ap.OrderedCollectionPageType)
+	mimes = append(mimes, ap.MimeType("text/html; charset=utf-8"))
+	nlvs = append(nlvs, ap.NaturalLanguageValues{}, ap.NaturalLanguageValues{{Ref: ap.NilLangRef, Value: ap.Content("only")}},
+		ap.NaturalLanguageValues{{Ref: "en", Value: ap.Content("a")}, {Ref: ap.NilLangRef, Value: ap.Content("b")}, {Ref: "de", Value: ap.Content("c")}})
+	sources = append(sources, ap.Source{}, ap.Source{MediaType: "text/plain"},
+		ap.Source{Content: ap.NaturalLanguageValues{{Ref: "en", Value: ap.Content("a")}, {Ref: "fr", Value: ap.Content("b")}}})
+	irisL = append(irisL, ap.IRIs{}, ap.IRIs{"https://example.com/1"}, ap.IRIs{"https://example.com/1", "https://example.com/2", "https://example.com/1?x=1"})
+	eps = append(eps, ap.Endpoints{}, ap.Endpoints{SharedInbox: ap.IRI("https://example.com/inbox")},
+		ap.Endpoints{UploadMedia: ap.IRI("https://example.com/u"), OauthAuthorizationEndpoint: ap.IRI("https://example.com/a"), OauthTokenEndpoint: ap.IRI("https://example.com/t"),
+			ProvideClientKey: ap.IRI("https://example.com/p"), SignClientKey: ap.IRI("https://example.com/s"), SharedInbox: ap.IRI("https://example.com/i")},
+		ap.Endpoints{SharedInbox: &ap.Actor{ID: "https://example.com/proxy", Type: ap.ServiceType}})
+	pks = append(pks, ap.PublicKey{}, ap.PublicKey{ID: "https://example.com/a#main-key", Owner: "https://example.com/a", PublicKeyPem: "-----BEGIN PUBLIC KEY-----\nMIIB\n-----END PUBLIC KEY-----"},
+		ap.PublicKey{PublicKeyPem: "pem only"}, ap.PublicKey{ID: "https://example.com/k"}, ap.PublicKey{Owner: "https://example.com/o"})
+	return []c03Helper{{"IRI", iris}, {"ActivityVocabularyType", types}, {"MimeType", mimes}, {"Content", contents}, {"LangRef", refs}, {"LangRefValue", lrvs},
+		{"NaturalLanguageValues", nlvs}, {"Source", sources}, {"IRIs", irisL}, {"Endpoints", eps}, {"PublicKey", pks}}
+}
+
+// c03HelperRoundTrip stores v through one entry pair and compares what comes back with reflect.DeepEqual after the
+// unset==empty normal form (nil and zero-length slices/strings are one value).
+func c03HelperRoundTrip(name string, v interface{}, pair string) (key, detail string) {
+	fresh := reflect.New(reflect.TypeOf(v))
+	var err error
+	stage := "encode"
+	pi := evSafe(func() {
+		var b []byte
+		switch pair {
+		case "gob":
+			b, err = v.(gob.GobEncoder).GobEncode()
+			if err == nil {
+				stage = "decode"
+				err = fresh.Interface().(gob.GobDecoder).GobDecode(b)
+			}
+		case "binary":
+			b, err = v.(encoding.BinaryMarshaler).MarshalBinary()
+			if err == nil {
+				stage = "decode"
+				u, ok := fresh.Interface().(encoding.BinaryUnmarshaler)
+				if !ok {
+					err = fmt.Errorf("*%s has MarshalBinary but no UnmarshalBinary", name)
+					return
+				}
+				err = u.UnmarshalBinary(b)
+			}
+		case "stdgob":
+			var buf bytes.Buffer
+			err = gob.NewEncoder(&buf).Encode(v)
+			if err == nil {
+				stage = "decode"
+				err = gob.NewDecoder(&buf).Decode(fresh.Interface())
+			}
+		}
+	})
+	if pi != nil {
+		return fmt.Sprintf("gob-helper %s %s panic@%s", name, pair, pi.Frame), pi.Value
+	}
+	if err != nil {
+		return fmt.Sprintf("gob-helper %s %s %s-error", name, pair, stage), fmt.Sprintf("%s of %s: %v", stage, vocab.Dump(v), err)
+	}
+	got := fresh.Elem().Interface()
+	if d := vocab.ContentDiff(c03NormEmpty(v), c03NormEmpty(got)); len(d) > 0 {
+		return fmt.Sprintf("gob-helper %s %s differs", name, pair), fmt.Sprintf("stored %s, read back %s: %s", vocab.Dump(v), vocab.Dump(got), strings.Join(d, "; "))
+	}
+	return "", ""
+}
+
+// c03NormEmpty maps zero-length slices to nil, recursively (the unset==empty clause).
+func c03NormEmpty(v interface{}) interface{} {
+	c := vocab.Clone(v)
+	p := reflect.New(reflect.TypeOf(c))
+	p.Elem().Set(reflect.ValueOf(c))
+	var walk func(x reflect.Value)
+	walk = func(x reflect.Value) {
+		switch x.Kind() {
+		case reflect.Ptr, reflect.Interface:
+			if !x.IsNil() {
+				if x.Kind() == reflect.Interface {
+					// interfaces are not settable through Elem(): copy, normalise, store back
+					n := reflect.New(x.Elem().Type())
+					n.Elem().Set(x.Elem())
+					walk(n.Elem())
+					if x.CanSet() {
+						x.Set(n.Elem())
+					}
+					return
+				}
+				walk(x.Elem())
+			}
+		case reflect.Struct:
+			for i := 0; i < x.NumField(); i++ {
+				if x.Type().Field(i).IsExported() {
+					walk(x.Field(i))
+				}
+			}
+		case reflect.Slice:
+			if x.Len() == 0 {
+				if x.CanSet() {
+					x.Set(reflect.Zero(x.Type()))
+				}
+				return
+			}
+			for i := 0; i < x.Len(); i++ {
+				walk(x.Index(i))
+			}
+		}
+	}
+	walk(p.Elem())
+	return p.Elem().Interface()
 }
